@@ -165,6 +165,18 @@ func canonVals(f int, v [4]int) [4]int {
 	return v
 }
 
+// canon returns the canonical form of the case: value codes the finisher
+// cannot distinguish are merged, and explicit time values are dropped where
+// the value handed to gorm cannot carry them (the patch struct type of
+// shapePatch has no create-time / update-time field).
+func (c Case) canon() Case {
+	c.Vals = canonVals(c.Fin, c.Vals)
+	if c.Model.Shape == shapePatch {
+		c.TVals = [2]int{}
+	}
+	return c
+}
+
 func (m ModelSpec) spelled(n NameRef) string {
 	switch n.Spell {
 	case 0:
